@@ -16,7 +16,7 @@ TRACE_ALL = "planted,linear,prio,contra,malformed,caps,collapsed"
 
 PROPS = {
     "C12": {
-        "modules": ["Ezpz.Proofs.Assembly", "Ezpz.Proofs.AssemblyPerm", "Ezpz.Proofs.Rename", "Ezpz.Proofs.EquivHelpers", "Ezpz.Real.Equivariance", "Ezpz.Real.EquivarianceRenumber", "Ezpz.Proofs.Relabel", "Ezpz.Real.EquivarianceEntry", "Ezpz.Real.GaussNewton", "Ezpz.Real.StopTests", "Ezpz.Properties.C10"],
+        "modules": ["Ezpz.Proofs.Assembly", "Ezpz.Proofs.AssemblyPerm", "Ezpz.Proofs.Rename", "Ezpz.Proofs.EquivHelpers", "Ezpz.Real.Equivariance", "Ezpz.Real.EquivarianceRenumber", "Ezpz.Proofs.Relabel", "Ezpz.Real.EquivarianceEntry", "Ezpz.Real.GaussNewton", "Ezpz.Real.StopTests", "Ezpz.Properties.C10", "Ezpz.Real.EquivarianceDof"],
         "suites": [
             {"suite": "kernels", "quick": (750,), "thorough": (10000,)},
             {"suite": "trace", "quick": (2000, "planted,linear,prio,contra,collapsed,pinned,large"), "thorough": (18000, "planted,linear,prio,contra,caps,conflict,collapsed,pinned,large")},
@@ -25,12 +25,13 @@ PROPS = {
             {"bin": "oracle_c12", "quick": ("{seed}", "4000"), "thorough": ("{seed}", "20000")},
         ],
         "partial": ["solve_equivariant is proved per priority level over the reals (solveInner_perm, solveInner_renumber, with newtonStep/newtonLoop versions): reordering the requests gives the same values, iterations, solved priority and under-constrained set, the same unsatisfied requests and warnings up to order (equal after sorting: unsatisfied_sorted_eq); renumbering the variables gives the reordered values and otherwise the identical outcome; the solver hypotheses (RowPermSolve, ColPermSolve) are shown to hold for exact total solvers (rowPermSolve_of_exact, colPermSolve_of_exact via step_row_perm / step_col_perm / step_unique). Not invariant, and stated so (solveInner_perm_invalid): which request a MissingGuess error names when several requests have missing guesses (first in list order). At the public entry point (solveWithPriority_perm, solveWithPriority_renumber; solve without analysis): request ids are pure labels (solveInner_relabel_cases), enumerate of a permuted list is a permutation of the relabelled entries, the levels are equal, so both runs take the same decisions level by level: same values, iterations and solved priority, unsatisfied requests and warnings mapped through the position bijection (up to order), or the same failure",
+                    "with analysis (Real/EquivarianceDof.lean): the under-constrained list is a function of the kernel of the analysed Jacobian only (dof_same_kernel, spectrum gap needed, participation gap not), hence equal under request permutation (dof_row_perm, solveInner_perm_withAnalysis, solveWithPriority_perm_withAnalysis) and mapped through the renumbering under variable renumbering (dof_col_perm, solveInner_renumber_withAnalysis, solveWithPriority_renumber_withAnalysis with the relation RenumEqDof; the older RenumEq demands equal lists and is only right without analysis); the SVD contract is assumed for the two Jacobians actually analysed (SvdGood), not for all matrices",
                     "'up to numerical noise': summation order inside faer changes with row / column order; left to the oracle on the real code (known finding F16: on inconsistent rank-deficient systems one order converges and another does not)"],
         "assumptions": ["the LU answer is a parameter; over the reals it is characterised by IsStep, which is what the permutation theorems are about"],
         "rule": "planted and linear systems; all request permutations for <= 4 requests, random samples otherwise; random variable renumberings with the guess list reordered to match; verdicts, solved priority and under-constrained sets must match exactly through the permutation, values of constrained variables within 1e-6*scale, under-constrained ones within 1e-2*scale with every constraint still satisfied",
     },
     "C15": {
-        "modules": ["Ezpz.Proofs.Lint", "Ezpz.Real.Lint", "Ezpz.Proofs.Warnings"],
+        "modules": ["Ezpz.Proofs.Lint", "Ezpz.Real.Lint", "Ezpz.Proofs.Warnings", "Ezpz.Proofs.Visited", "Ezpz.Properties.C07b"],
         "suites": [
             {"suite": "kernels", "quick": (750,), "thorough": (10000,)},
             {"suite": "trace", "quick": (2000, "planted,prio,contra,malformed,conflict,collapsed,pinned,large"), "thorough": (18000, "planted,prio,contra,malformed,conflict,linear,caps,collapsed,pinned,large")},
@@ -39,7 +40,8 @@ PROPS = {
             {"bin": "oracle_c15", "quick": ("{seed}", "10000"), "thorough": ("{seed}", "60000")},
         ],
         "partial": ["'always gets a warning' is proved for the request subset whose outcome / failure is returned (lint_survives, lint_survives_error, lint_single_level); for a special-angle request at a level that was never attempted or was abandoned the code emits nothing - the statement is false of the code there (known finding F12; machine-checked negation witness lint_lost_below_solved_priority, general form no_warning_above_solved_priority)",
-                    "'none for solves that start near a non-degenerate solution' is a claim about the iterates of the f64 loop: searched by the oracle, not proved; what is proved is that every notice names a request whose evaluation raised the flag at a visited configuration (newtonLoop_warnings, C07.warning_indices), what the flag means geometrically per kind (degenerate_sound_*), and that a collapse at the guess is always reported (degenerate_complete_at_guess)",
+                    "'none for solves that start near a non-degenerate solution' is a claim about the iterates of the f64 loop: searched by the oracle, not proved; what is proved is that the Degenerate notices of a run are EXACTLY the notices of the flags raised at the configurations it visited, in order, without de-duplication (newtonLoop_warnings_eq, warning_indices_visited, degenerate_reported; Proofs/Visited.lean, Properties/C07b.lean), what the flag means geometrically per kind (degenerate_sound_*), and that a collapse at the guess is always reported for the guarded kinds (degenerate_complete_at_guess, per level: a collapsed request above the solved priority gets no notice, same shape as F12); the values returned after a step-size stop are never evaluated for degeneracy",
+                    "kinds without a guard never raise the flag (never_degenerate_kinds: Parallel, Perpendicular, Vertical, Horizontal, Midpoint, PointsCoincident, Arc, the horizontal / vertical distances): a zero-length line in one of those gets no notice - 'zero-length line' in the statement is covered for the guarded kinds only",
                     "zero radius is not guarded for circles (CircleRadius, CircleTangentToCircle never raise the flag; circle_kinds_unguarded): 'zero radius' in the statement is covered for arcs only"],
         "assumptions": ["EPSILON is the value extracted from lib.rs on this run; the angle lint theorems are over the reals (pi*180/pi = 180 exactly), the f64 behaviour at the special values is checked by the oracle in both units"],
         "rule": "systems containing explicit-angle requests with angles from a dense set around 0, +-90, 180, 360 (and 270, -180, 45, ...) in degrees and radians, at one and at several priority levels, solvable and unsolvable; planted systems with and without deliberately collapsed guesses (zero-length lines, coincident points, zero-radius arcs); every warning in Ok and Err results is audited against the request it names",
@@ -54,6 +56,7 @@ PROPS = {
         ],
         "partial": ["the theorems are about the hand-written model of main.rs (Ezpz/Model/Cli.lean, CliMain.lean); the tie to the real program is the comparison of exit status and standard output of the release binary built from /repo with the model's rendering, by path and by stdin, on every generated text",
                     "cli_never_panics assumes the LU oracle does not panic (LinSolveTotal, as in C06); panics inside faer, clap argument handling, --image-path (visualize::save_png) and the two wall-clock performance lines are outside the model",
+                    "the text after the index on an unsatisfied-request line ('<i>: <constraint Debug>') and the sentences of warnings are masked on both sides of the differential: only the indices are compared; a CLI that printed the wrong constraint for the right index would not be noticed",
                     "the benchmark loop's unwrap is safe given determinism of the numeric kernels (C10): resolve_deterministic is about the model, a pure function"],
         "assumptions": ["fmt2 ({:.2} formatting) is in the model (Ezpz/Model/Fmt.lean) and proved to be round-half-even of the exact binary value to two decimals (FmtCorrect.lean: fmt2Core_nearest, fmt2Core_ties_even, fmt2Core_unique, fmt2_digits); that Rust's {:.2} does the same is checked against the real binary's output"],
         "rule": "problem texts: the repository's own test cases, generated valid texts (points, circles, arcs, all instruction forms), unsolvable and contradictory ones, and mutated / malformed ones; each is run through the release `ezpz` binary by path and by stdin, with and without --show-points; exit status, absence of panic and every stdout line are compared with the model's rendering of the library outcome computed in-process",
@@ -67,12 +70,13 @@ PROPS = {
             {"bin": "oracle_c17", "quick": ("{seed}", "1500", "12"), "thorough": ("{seed}", "3000", "200")},
         ],
         "partial": ["iterates_restrict is proved (Union.lean: newtonStep_union, newtonRun_union, newtonLoop_union_prefix, newtonLoop_union_converged, residual_test_union_iff, union_values_split; blockSolve_of_exact shows exact solvers satisfy the block hypothesis): while both groups keep iterating the union's values are the concatenation of the groups' values, the union returns at the residual test iff both groups do, and in every case the new values of a group are computed from that group's data only - only the decision when to stop is global (step_test_is_global: the relative step threshold uses the largest coordinate of the whole union). Also proved: requests of groups sharing no variables give a block-diagonal Jacobian and a concatenated residual at every configuration (disjoint_block_structure, disjoint_no_coupling), a group's rows depend only on its own variables (group1_independent, group2_independent), the damped step of the union is exactly the pair of the groups' steps (step_of_blocks), the union's residual test passes iff every group's does and its step norm is the largest group norm (residual_test_of_union, step_norm_of_union), an Ok result has only finite values (C06.ok_implies_finite, which closes the NaN cross-talk path); equality of returned values is therefore exact for equal iteration counts; when one group converges earlier the union keeps stepping it (global stopping rules) and the difference is a convergence quantity, left to the oracle (<= 1e-5*scale)",
+                    "scope of the theorems: TWO groups, group 1's requests listed before group 2's, ids 0..n1-1 then shifted by n1, one priority level; 'from two to hundreds of groups, however interleaved and numbered' is reached only by composing with the C12 permutation / renumbering theorems and by induction over groups, neither of which is carried out in Lean - the oracle covers unions of up to 200 groups with interleaved requests and shuffled ids",
                     "known finding F16: a group that is inconsistent and rank-deficient may converge alone and not in the union (or vice versa) because of rounding noise in the null space"],
         "assumptions": ["the LU answer is a parameter; over the reals it is characterised by IsStep"],
         "rule": "disjoint unions of 2..200 planted or linear sub-systems (each 1..12 constraints), requests interleaved at random, variable ids offset and shuffled; each group is first solved alone on the real code; the union must succeed with the same verdicts per group and the same values for every variable that is not under-constrained within 1e-5*scale",
     },
     "C05": {
-        "modules": ["Ezpz.Properties.C05", "Ezpz.Real.Kernel", "Ezpz.Real.Dof"],
+        "modules": ["Ezpz.Properties.C05", "Ezpz.Real.Kernel", "Ezpz.Real.Dof", "Ezpz.Real.DofEntry"],
         "suites": [
             {"suite": "trace", "quick": (2500, "planted,linear,prio,contra,collapsed,pinned,large"), "thorough": (24000, "planted,linear,prio,contra,caps,conflict,disparity,collapsed,pinned,large")},
         ],
@@ -80,7 +84,7 @@ PROPS = {
             {"bin": "oracle_c05.py", "python": True, "quick": ("{seed}", "4000"), "thorough": ("{seed}", "20000")},
         ],
         "partial": ["dof_spec is about exact real arithmetic under the SvdSpec contract and the two gap hypotheses (the property's own 'well-separated cases only'); that faer's f64 SVD meets the contract is checked as a certificate (V orthogonal, VtJtJV = diag sigma^2, sigma sorted) on every recorded trace, and the float thresholds on borderline spectra are outside the statement",
-                    "the analysed Jacobian is the one of the returned configuration only when the solve ended at the residual test (analysis_of_returned_model); after a step-size stop it is the Jacobian one step earlier - the difference is below the step tolerance"],
+                    "tied to the solver's outcome by Real/DofEntry.lean: underconstrained_is_nullspace_participation - for a successful solveWithPriority with analysis the reported list is exactly {j | some null vector of the analysed Jacobian has a non-zero j-th component}, under the SVD contract for the matrix actually analysed; the analysed Jacobian (LastRound) is the assembled Jacobian of the requests of priority <= the solved priority at the point the last executed round STARTED from: the returned point after a residual-test stop, the point one step earlier after a step-size stop (lastJac_is_before_last_step is a concrete run where the two Jacobians differ) - the difference is below the step tolerance"],
         "assumptions": ["SvdSpec: the part of faer's SVD contract the code relies on (U is never used)"],
         "trusted_extra": ["faer dense SVD: modelled as a parameter; contract SvdSpec checked numerically per recorded trace (tools/compare_trace.py)"],
         "rule": "planted and linear systems with 0..15 constraints and 2..40 variables (incl. pinned, free-floating, rank-deficient but over-determined, free variables hidden behind equalities, no constraints, and multi-priority lists whose lower level solves but stays unsatisfied so that the previous level is what is returned): solve_analysis on the real code vs numpy null space of a finite-difference Jacobian at the returned point; cases without a clear gap in the singular values or participations are excluded by the oracle",
@@ -94,14 +98,14 @@ PROPS = {
         "oracles": [
             {"bin": "oracle_c02", "quick": ("{seed}", "15000"), "thorough": ("{seed}", "200000")},
         ],
-        "partial": ["convergence of the f64 iteration (success, iteration count <= 8, landing within 1.5x) is NOT proved: the theorems give the loop's anatomy (every round is residual test -> damped step of the Jacobian at the current point -> step test), existence/uniqueness/descent of the exact step, monotone approach on consistent linear systems, and the abstract contraction argument with the constant 1.5; that a given planted system satisfies the contraction hypothesis is left to the oracle on the real code",
+        "partial": ["convergence of the f64 iteration (success, iteration count <= 8, landing within 1.5x) is NOT proved: the theorems give the loop's anatomy (every round is residual test -> damped step of the Jacobian at the current point -> step test), existence/uniqueness/descent of the exact step, monotone approach on consistent linear systems, and the abstract contraction argument with the constant 1.5; that a given planted system satisfies the contraction hypothesis is left to the oracle on the real code; the hypothesis 'the assembled error map is differentiable at x* with Jacobian J' is NOT derived from the per-kind derivative theorems of C13 (those are derivatives along coordinate lines, DerivRow; the bridge to HasFDerivAt of the assembled residual is not built)",
                     "gauss_newton_local_C02 (LocalContraction.lean) proves the whole chain for the exact iteration: error map differentiable at x* with Jacobian J, sigma_min(J)^2 >= c > lambda > 0, iteration operator continuous at x* => a ball around x* on which the error halves every round and no iterate is farther from the guess than 1.5x; continuity of the iteration operator is derived from continuity of the Jacobian at x* (gauss_newton_local_C02_of_continuous_jacobian); rank-deficient ('not pinned down') systems are outside it: the defect operator is the identity on ker J (damped_defect_on_kernel), which is the regime of known finding F15",
                     "under-determined planted systems do land farther than 1.5x from the guess in about 0.02% of the cases on the real code (known finding F15)"],
         "assumptions": ["the LU answer is a parameter of the loop theorems; over the reals it is characterised by IsStep (existence and uniqueness proved), and held to it on recorded traces by the step certificate"],
         "rule": "planted-solution systems: random geometry X*, 1..15 constraints of any of the 23 kinds sharing entities with parameters derived from X*, anchored or free-floating, one in ten with an additional short fully determined feature (edge or arc of size 1.5e-3..9e-3 with its guess off by up to 30% of its size), guesses X* + delta with |delta| <= 1e-2*scale; the oracle demands Ok, all satisfied, <= 8 iterations and |x_out - x0| <= 1.5|x0 - X*| + 1e-9, excluding (by the oracle) degenerate / ill-conditioned plants and branch switches inside the ball",
     },
     "C04": {
-        "modules": ["Ezpz.Properties.C04", "Ezpz.Real.GaussNewton", "Ezpz.Real.GaussNewton2", "Ezpz.Real.GaussNewton3", "Ezpz.Real.Linear", "Ezpz.Real.LinearConvergence", "Ezpz.Real.GapExists"],
+        "modules": ["Ezpz.Properties.C04", "Ezpz.Real.GaussNewton", "Ezpz.Real.GaussNewton2", "Ezpz.Real.GaussNewton3", "Ezpz.Real.Linear", "Ezpz.Real.LinearConvergence", "Ezpz.Real.GapExists", "Ezpz.Proofs.Untouched2", "Ezpz.Real.UntouchedEntry", "Ezpz.Real.LinearEntry"],
         "suites": [
             {"suite": "kernels", "quick": (750,), "thorough": (10000,)},
             {"suite": "trace", "quick": (2000, "linear,planted,contra,conflict,collapsed,pinned,large"), "thorough": (18000, "linear,planted,contra,conflict,prio,caps,collapsed,pinned,large")},
@@ -110,12 +114,13 @@ PROPS = {
             {"bin": "oracle_c04.py", "python": True, "quick": ("{seed}", "2000"), "thorough": ("{seed}", "8000")},
         ],
         "partial": ["the 1e-4*scale closeness of the f64 result to the exact minimum-norm least-squares point (effect of lambda = 1e-9, of stopping early, of rounding) is not proved: the theorems give the exact algebra (one step is the Tikhonov minimiser; displacement stays in range(A^T); a stationary point with displacement in range(A^T) is the unique nearest least-squares point; the last step d certifies stationarity up to lambda*|d|); in exact arithmetic a consistent system converges geometrically with factor lambda/(c+lambda) per round to the solution nearest the guess, c a lower bound of |Az|^2/|z|^2 on range(A^T), which exists and is positive for every matrix (gap_exists), and the nearest solution exists (nearest_solution_exists): linear_consistent_converges_from_guess has no hypothesis beyond consistency; that the f64 iteration gets there within 35 rounds and stops is left to the exact-rational oracle on the real code",
-                    "untouched_var_fixed is stated for a solver answer whose component for the variable is a neutral element of +; that the exact step has this component 0 for a zero Jacobian column is untouched_var_step_zero (reals); that faer's LU returns exactly 0.0 there is checked on every recorded trace"],
+                    "unmentioned variables: untouched_var_fixed' (Proofs/Untouched2.lean, every scalar type) says: no request mentions j (=> no triplet in column j, jacobianAll_no_column) and the solver returns a neutral element of + in slot j for Jacobians without a column j (ZeroStepOn) => j is returned at its guess; over the reals every exact solver satisfies ZeroStepOn (zeroStepOn_of_exact via untouched_var_step_zero), giving unmentioned_variable_returned_at_guess with no hypothesis on the solver beyond exactness; that faer's LU returns exactly 0.0 there is checked on every recorded trace (zero-column certificate). For f64 'exactly at its guess' means equal as numbers: a guess of -0.0 comes back as +0.0 (-0.0 + 0.0)",
+                    "the linear-algebra theorems are tied to the model by Real/LinearEntry.lean: for a list of linear kinds the assembled residual is A x - b with a constant A (assembled_affine), one round of the model's loop with an exact solver is IsStep A (A x - b) lambda (x' - x) (newtonStep_isStep), and after j executed rounds of newtonLoop the squared distance to the nearest solution of a consistent system has contracted by q^(2j), q < 1 depending only on the requests and lambda (newtonRun_converges_prefix, newtonLoop_result_contracts); for inconsistent systems existence of the limit point is not proved (nearest_least_squares characterises it if it is reached)"],
         "assumptions": ["the LU answer is a parameter; IsStep characterises it over the reals"],
-        "rule": "linear systems over up to 8 points with dyadic-rational parameters and guesses (consistent, redundant, contradictory, rank-deficient) solved by the real code and compared with x* = x0 + pinv(A)(b - A x0) computed exactly (sympy rationals); systems of any kind with extra unmentioned variables must return those at their guesses bit for bit",
+        "rule": "linear systems over up to 8 points with dyadic-rational parameters and guesses (consistent, redundant, contradictory, rank-deficient) solved by the real code and compared with x* = x0 + pinv(A)(b - A x0) computed exactly (sympy rationals); systems of any kind with extra unmentioned variables must return those at their guesses (equal as f64 values: bit for bit except that a -0.0 guess may come back as +0.0)",
     },
     "C03": {
-        "modules": ["Ezpz.Properties.C03"],
+        "modules": ["Ezpz.Properties.C03", "Ezpz.Proofs.PriorityEntry", "Ezpz.Real.PriorityEntry"],
         "suites": [
             {"suite": "trace", "quick": (2000, "prio,contra,planted,linear,caps,malformed,conflict,disparity,resolve,large"), "thorough": (18000, "prio,contra,planted,linear,caps,malformed,conflict,disparity,resolve,large")},
         ],
@@ -123,22 +128,23 @@ PROPS = {
             {"bin": "oracle_c03", "quick": ("{seed}", "7500", "0"), "thorough": ("{seed}", "20000", "1")},
         ],
         "partial": [],
+        "partial": ["full for every scalar type and every per-level solver: priority_spec / result_is_subset_solve, and at the public observation point result_is_filtered_solve(_fields) / error_is_filtered_solve (Proofs/PriorityEntry.lean): the prioritised solve of the whole list returns exactly what the public solve of the filtered list reqs.filter (priority <= P) returns, positions mapped through the strictly increasing position map pos, with the same LU / SVD oracles and no re-indexing (level_index_coincide); nothing about this property is left to the oracle except the f64 numerics inside one level"],
         "assumptions": ["the per-level solve is a parameter of the priority theorems: they hold for whatever solve_inner computes"],
     },
     "C14": {
-        "modules": ["Ezpz.Properties.C14", "Ezpz.Real.Tolerance"],
+        "modules": ["Ezpz.Properties.C14", "Ezpz.Real.Tolerance", "Ezpz.Proofs.Caps", "Ezpz.Real.ToleranceEntry"],
         "suites": [
             {"suite": "trace", "quick": (2000, "caps,prio,planted,contra,collapsed,pinned,large"), "thorough": (18000, "caps,prio,planted,contra,linear,malformed,collapsed,pinned,large")},
         ],
         "oracles": [
             {"bin": "oracle_c14", "quick": ("{seed}", "1500"), "thorough": ("{seed}", "6000")},
         ],
-        "partial": ["solve_cap_monotone_partial: for several priority levels cap-monotonicity is proved under the hypothesis that no level fails with DidNotConverge under the smaller cap; without it the statement is false of the code (known finding F11)",
-                    "the tolerance clause is proved over the reals for results returned at the residual test (converged_within_tolerance: every error component <= the configured tolerance); that the f64 iteration reaches the residual test for a given tighter tolerance is a convergence claim, checked by the oracle on the real code only"],
+        "partial": ["single priority level: solve_cap_monotone_single_level (Proofs/Caps.lean) - unconditional at the public entry point; error direction for ANY request list: solve_cap_monotone_err (DidNotConverge under cap c' => DidNotConverge with the same sizes under every c <= c'); several levels, success direction: solve_cap_monotone_partial needs the hypothesis that no level call runs out of iterations under the smaller cap - without it the statement is false of model and code (known finding F11; machine-checked witnesses cap_not_monotone_multi_level over the reals and cap_not_monotone_multi_level_float evaluated at f64)",
+                    "the tolerance clause is proved over the reals at the public outcome (Real/ToleranceEntry.lean: solve_within_tolerance - every residual component of every attempted request at the returned values is <= the configured tolerance when the returned level stopped on the residual test; solve_within_tolerance_of_silent replaces the ghost flag by an observable condition, e.g. step tolerance 0 and a solver that never answers a non-converged residual with the zero step); that the f64 iteration reaches the residual test for a given tighter tolerance is a convergence claim, checked by the oracle on the real code only"],
         "assumptions": ["the LU solve is a parameter indexed by (level, iteration): the theorems hold for every such family"],
     },
     "C01": {
-        "modules": ["Ezpz.Properties.C01", "Ezpz.Real.Meaning", "Ezpz.Real.MeaningArcs", "Ezpz.Real.Composite"],
+        "modules": ["Ezpz.Properties.C01", "Ezpz.Real.Meaning", "Ezpz.Real.MeaningArcs", "Ezpz.Real.Composite", "Ezpz.Real.MeaningEntry"],
         "suites": [
             {"suite": "composite", "quick": (2000,), "thorough": (20000,)},
             {"suite": "kernels", "quick": (750,), "thorough": (10000,)},
@@ -148,7 +154,8 @@ PROPS = {
             {"bin": "oracle_c01", "quick": ("{seed}", "3000"), "thorough": ("{seed}", "20000")},
         ],
         "partial": ["point_arc_verdict: for PointArcCoincident only 'on the circle' is guaranteed by a satisfied verdict; the arc's sweep is not checked within 0.05 of the circle (known finding F14)",
-                    "the geometric meaning of each error measure is proved over the reals (measures_<kind>, satisfied_<kind>, zero_iff_<kind> for all 23 kinds, in coordinates, against a vocabulary written independently of the kernels); for the f64 code it is checked by the independent geometric oracle; where a kind's residual guard is active the measure is 0 and the verdict is 'satisfied' whatever the geometry (guarded_* / satisfied_of_guard_* theorems): those configurations are exempt in the oracle as degenerate"],
+                    "the geometric meaning of each error measure is proved over the reals (measures_<kind>, satisfied_<kind>, zero_iff_<kind> for all 23 kinds, in coordinates, against a vocabulary written independently of the kernels); for the f64 code it is checked by the independent geometric oracle; where a kind's residual guard is active the measure is 0 and the verdict is 'satisfied' whatever the geometry (guarded_* / satisfied_of_guard_* theorems): those configurations are exempt in the oracle as degenerate",
+                    "end to end (Real/MeaningEntry.lean, all 23 kinds): for an attempted request of a successful solve, 'not listed' is equivalent to its geometric meaning holding within EPS at the returned coordinates and 'listed' to a violation by at least EPS in some component (<kind>_end_to_end, from satisfiedAt_iff_residualV + satisfied_<kind>), over the reals; the guarded kinds carry their guard-inactive hypothesis and have <kind>_guard_never_listed for the other case"],
         "assumptions": ["EPSILON is the value extracted from lib.rs on this run"],
     },
     "C06": {
@@ -160,11 +167,13 @@ PROPS = {
         "oracles": [
             {"bin": "oracle_c06", "quick": ("{seed}", "15000"), "thorough": ("{seed}", "100000")},
         ],
-        "partial": ["panics inside faer, float overflow producing non-finite intermediates (caught by the guard, not prevented) and memory exhaustion are runtime behaviour the model cannot exhibit; they are covered by the oracle on the real code only"],
+        "partial": ["the Float instance's hypot is sqrt(x*x + y*y), not libm's overflow-safe hypot: for coordinates around 1e154 and beyond the model's residual is inf where the code's is finite, so such runs are not compared numerically by corr-trace (they are skipped and counted); C06's theorems hold for every scalar type and are unaffected; the real code's behaviour on huge inputs is covered by the totality oracle",
+                    "iterations_bounded is about the reported count of successful runs; that no level runs more Newton rounds than the cap is checked on the real code from the trace (oracle_c06 / oracle_c14 'rounds-exceed-cap') and, for the model, follows from iteratesFrom_length_le",
+                    "panics inside faer, float overflow producing non-finite intermediates (caught by the guard, not prevented) and memory exhaustion are runtime behaviour the model cannot exhibit; they are covered by the oracle on the real code only"],
         "assumptions": ["LinSolveTotal / SvdTotal: faer returns a step with one entry per variable and a V of at least n x n entries, and reports failures as errors"],
     },
     "C07": {
-        "modules": ["Ezpz.Properties.C07"],
+        "modules": ["Ezpz.Properties.C07", "Ezpz.Proofs.Visited", "Ezpz.Properties.C07b"],
         "suites": [
             {"suite": "composite", "quick": (3000,), "thorough": (30000,)},
             {"suite": "trace", "quick": (2000, "prio,contra,planted,malformed,conflict,collapsed,pinned,resolve,large"), "thorough": (18000, "prio,contra,planted,malformed,linear,caps,conflict,collapsed,pinned,resolve,large")},
@@ -172,7 +181,9 @@ PROPS = {
         "oracles": [
             {"bin": "oracle_c07", "quick": ("{seed}", "5000"), "thorough": ("{seed}", "30000")},
         ],
-        "partial": ["values_by_id_partial: proved under 'guess ids are 0..n in order'; false of the code otherwise (known finding F5, negation witness values_by_id_fails_when_permuted)"],
+        "partial": ["values_by_id_partial: proved under 'guess ids are 0..n in order'; false of the code otherwise (known finding F5, negation witness values_by_id_fails_when_permuted)",
+                    "warnings: warning_indices_visited / failure_warning_indices (Properties/C07b.lean) - every warning of an Ok or Failure outcome names, by caller position, an attempted request, and is either a lint of a LinesAtAngle(Other) request or a Degenerate notice whose flag was raised at a configuration this run visited (DegenerateAtVisited over the iterates of the returned level, Proofs/Visited.lean); the older warning_indices / newtonLoop_warnings say only 'a request of a kind that can raise the flag' and are kept as the weak form; failure_sizes_solve' names the level (the numerically smallest requested priority)",
+                    "typed lookups: Model/Outcome.lean mirrors solve_outcome.rs:52-86 and is compared exactly (corr-composite, every third case: arbitrary values, unordered / repeated / out-of-range ids, PANIC <-> none); finalValue{Distance,Point,Circle,Arc}_spec say each entity is read at its own ids"],
         "assumptions": [],
     },
     "C10": {
@@ -183,20 +194,22 @@ PROPS = {
         "oracles": [
             {"bin": "oracle_c10", "quick": ("{seed}", "4000"), "thorough": ("{seed}", "20000"), "digest_twice": True, "second_args": ["rev"]},
         ],
-        "partial": ["analysis_only_adds_failure_partial: proved under 'the analysis succeeds at every attempted level'; without it the statement is false of the code (known finding F10)",
+        "partial": ["analysis_only_adds_failure_partial: proved under the hypothesis hok that plain and analysed level runs agree at EVERY (priority value, call index) pair - stronger than 'the analysis succeeds at every attempted level' (an analysis failure at a level that is never attempted falsifies hok although the conclusion still holds); without any such hypothesis the statement is false of the code (known finding F10)",
+                    "'the text front-end's solve methods agree': the four methods (solve, solve_with_config, solve_with_config_analysis, solve_no_metadata) are not modelled separately - the model has one text pipeline; their agreement with each other and with the library is checked on the real code only (oracle_c10: default and five non-default configurations, most of which make the solve fail)",
                     "bit-reproducibility of faer and libm across processes is sampled (digest of all results compared between two fresh processes), not proved"],
         "rule": "planted, linear, contradictory, prioritised and collapsed-guess systems: two calls in one process and two fresh processes (digest) must agree bit for bit including the ordered warnings list; solve vs solve_analysis field by field; plus generated problem texts through the text front-end: solve() twice, solve_with_config, solve_with_config_analysis, solve_no_metadata and the library call on the same constraints and guesses must agree bit for bit (labelled values included)",
         "assumptions": ["faer is built without the rayon feature (extracted from Cargo.toml on this run): sequential linear algebra"],
     },
     "C11": {
-        "modules": ["Ezpz.Properties.C11"],
+        "modules": ["Ezpz.Properties.C11", "Ezpz.Proofs.Resolve", "Ezpz.Real.Resolve"],
         "suites": [
             {"suite": "trace", "quick": (1500, "planted,linear,prio,resolve,large"), "thorough": (15000, "planted,linear,prio,caps,contra,resolve,large")},
         ],
         "oracles": [
             {"bin": "oracle_c11", "quick": ("{seed}", "3000"), "thorough": ("{seed}", "20000")},
         ],
-        "partial": ["results that stopped on the step-size test or fell back to a higher level are not 'converged' in the property's sense; the theorems' hypotheses say so (ghost flag byResidual / ConvergedAt)"],
+        "partial": ["results that stopped on the step-size test or fell back to a higher level are not 'converged' in the property's sense; the theorems' hypotheses say so (ghost flag byResidual / ConvergedAt / htop) and the file has counterexamples for both (a lower-level fall-back result is not a fixed point of the full list)",
+                    "converged_guess_untouched (repaired: its hypothesis used to be unsatisfiable unless some request had priority 0) derives success and gives values unchanged, 0 iterations, unsatisfied = [] and the top priority, every scalar type, every LU oracle; resolve_untouched lifts it to a re-solve from a previous result at the public entry point; the clauses about sub-lists and about adding already-satisfied constraints (ConvergedAt_subset, ConvergedAt_append, converged_guess_untouched_append, resolve_with_extra_untouched) need the order laws MaxLaws (le_trans, fmax is the least upper bound): true over the reals (Real/Resolve.lean), FALSE for f64 when a residual is NaN because fmax skips NaN (counterexample in Properties/C11.lean) - for finite residuals the f64 behaviour is covered by the oracle's chains"],
         "assumptions": [],
     },
     "C08": {
@@ -206,19 +219,21 @@ PROPS = {
         ],
         "oracles": [],
         "partial": ["the grammar (winnow combinators, f64::from_str) is modelled by hand and tied to parser.rs by the exact differential comparison; about the model it is proved that parsing the canonical rendering of any well-formed problem (all 23 instruction forms, declarations, both guess kinds; integer or plain decimal literals) returns that problem (parse_render, parse_render_dec, parse_render_instr); literals with exponents, nan/inf and sqrt(...), the pair form 'l = (x, y)' and non-canonical spacing are outside the round-trip theorem (covered by corr-text only); the model's decimal-to-binary64 conversion is proved correctly rounded (NumberCorrect.lean: ratToBits_nearest, ratToBits_ties_even, ratToBits_exact, ratToBits_overflow, both cut-offs of decToFloat sound); that Rust's f64::from_str is correctly rounded too is checked by corr-text, not proved",
+                    "'same constraint kinds, same entities in the same roles, same numeric parameters': there is NO independent specification of the lowering of each instruction in Lean (which label goes into which role of which constraint) - lower IS the model of executor.rs; that clause rests on the exact corr-text comparison (constraints dumped by the real front-end vs the model's) and on the hand-built-constraints oracle in corr_text.rs, which constructs the expected constraint for every instruction form independently in Rust; proved: which lookups each instruction performs and that they resolve exactly the declared labels (Proofs/TextStrict2.lean: lower_isOk_iff, resolves_iff_declared, datumPoint_* search order)",
                     "the labelled outcome is proved to report, for every declared point / circle / arc in declaration order, the final values at exactly the ids the layout specification assigns - the same ids the lowered constraints use (labelOutcome_spec, labelled_*_is_constraint_variable) - and the initial guesses round-trip through it (label_roundtrip)"],
         "assumptions": ["VARS_PER_POINT/CIRCLE/ARC are the values extracted from geometry_variables.rs on this run"],
         "rule": "texts are generated from the grammar (0..6 points, 0..3 circles, 0..3 arcs in any interleaving, 1..20 instructions over all 24 syntactic forms, several number syntaxes, optional whitespace) plus a mutation stream; each is compared exactly (parse dump, constraints, guesses, labelled outcome) between the real front-end and the Lean model, and against hand-built constraints",
     },
     "C09": {
-        "modules": ["Ezpz.Properties.C09"],
+        "modules": ["Ezpz.Properties.C09", "Ezpz.Proofs.TextStrict", "Ezpz.Proofs.TextStrict2"],
         "suites": [
             {"suite": "text", "quick": (800, 2400), "thorough": (10000, 60000)},
         ],
         "oracles": [
             {"bin": "oracle_c09_deep", "quick": ("100000", "1000000"), "thorough": ("1000000", "8000000"), "expect_stdout": "DEEP-OK"},
         ],
-        "partial": ["parser_total proves that the *grammar* terminates on every string; the stack depth and running time of the Rust parser are runtime behaviour, observed by running deep / long inputs in a child process"],
+        "partial": ["parser_total proves that the *grammar* terminates on every string; the stack depth and running time of the Rust parser are runtime behaviour, observed by running deep / long inputs in a child process",
+                    "strictness at the problem level (Proofs/TextStrict2.lean): strict_labels / undeclared_rejected (every label of every instruction, all 23 forms incl. line(..), resolves in an accepted text; otherwise a textual error naming an undeclared reference, rejected_names_culprit), buildVars_isOk_iff (accepted iff the guessed keys are exactly the declared ones, no duplicates among the declared), accepted_iff_text, rejection_kinds (every rejection is missingGuess, unusedGuesses or undefinedPoint); the problem-level label statement was false of model and code before fix 2942897 (finding F19). Not covered by 'nothing the user wrote is silently ignored': two guesses for the same label are accepted and the last one wins (amFromList_find?; HashMap::extend in executor.rs) - recorded as an observation, the property's three rejection clauses do not name it"],
         "assumptions": [],
         "rule": "mutation stream over generated valid texts (deleted / duplicated / renamed labels, swapped sections, truncation, inserted characters incl. non-ASCII, extra / missing guesses, undeclared references, sqrt nesting, odd numbers, noise) compared exactly between the real front-end and the Lean model; strictness and no-silent-drop checked on the real code",
     },
@@ -231,6 +246,7 @@ PROPS = {
             {"bin": "oracle_c13", "quick": ("{seed}", "750"), "thorough": ("{seed}", "5000")},
         ],
         "partial": [
+                    "completeness over the 23 kinds and their rows is by enumeration (one deriv_* theorem per kind and row, listed in DESIGN 11.2), not a single theorem quantified over kinds; DerivRow is the derivative along coordinate lines (what 'sensitivity with respect to each variable' means), not a Frechet derivative of the assembled map",
                     "inside the coarse guard bands (e.g. Symmetric |pq| < 0.1, LineTangentToCircle |v| < 0.01) the linearisation is switched off while the residual is live: excluded by the property's own 'away from the documented degeneracies'"],
         "assumptions": ["derivative theorems are about exact real arithmetic of the model's formulas; the f64 code is tied to the model by corr-kernels (all aliasing patterns)"],
         "rule": "corr-kernels: per shape, ids from small pools so that aliasing patterns occur, values over scales 1e-2..1e3 plus degenerate / special / out-of-range streams; oracle: 4th-order central differences with Richardson extrapolation of the real residual vs the real jacobian_rows per shape, row and declared variable",
